@@ -103,6 +103,10 @@ pub fn def(ctx: &Ctx) -> PropDef {
             check,
         ));
     }
+    if ctx.tier == crate::engine::Tier::Thorough {
+        subs.push(crate::props::fuzzsub::FuzzSub::boxed("fz_hist", "C11", 300000, false));
+        subs.push(crate::props::fuzzsub::FuzzSub::boxed("fz_hist", "C11", 300000, true));
+    }
     PropDef {
         id: "C11",
         rule: "cases = 18 serializable types x constructor x pre-advance (every buffer index: 0, mid-block, last word, exhausted) x history (incl. jumps, possibly ending in a half-consumed Isaac64Rng word) x format {bincode, serde_json} x continuation; oracle: restored == original (where == exists), and original, restored and a never-serialized twin return identical values over the continuation (which crosses a block refill in a measured share of cases) and 3 further native words. Non-trivial = snapshot not at the initial configuration and non-empty continuation; distinct by hash of the case.".into(),
